@@ -3,11 +3,243 @@ from ..engine import Ctx
 from . import specconst
 
 
+from ..facts import callee, op_local, op_place, op_const, op_const_int
+from ..mirutil import Defs
+
+SYNTH = "jxl_color::icc::synthesize::colour_encoding_to_icc"
+DETECT = "jxl_color::icc::parse::detect_profile_info"
+ENC_CICP = "jxl_image::color::EnumColourEncoding::cicp"
+TF_CICP = "jxl_image::color::TransferFunction::cicp"
+
+
+def range_start(f, defs, l):
+    """start offset of the range value held by local l (constant ranges only): RangeTo -> 0"""
+    d = defs.single(l) if l is not None else None
+    if not (d and d[2] == "assign" and d[3][2][0] == "agg" and d[3][2][1][0] == "adt" and "ops::range::Range" in str(d[3][2][1][1])):
+        return None
+    kind = d[3][2][1][1].split("::")[-1]
+    ops = d[3][2][2]
+    if kind in ("RangeTo", "RangeToInclusive", "RangeFull"):
+        return 0
+    return op_const_int(ops[0]) if ops else None
+
+
+def root_of(f, defs, l, depth=0):
+    """the local a reference / reborrow / unsizing cast chain starts from"""
+    while l is not None and depth < 12:
+        depth += 1
+        d = defs.single(l)
+        if not d or d[2] != "assign":
+            return l
+        rv = d[3][2]
+        if rv[0] == "ref":
+            l = rv[2][0]
+        elif rv[0] in ("use", "cast"):
+            p = op_place(rv[1] if rv[0] == "use" else rv[2])
+            if p is None:
+                return l
+            l = p[0]
+        else:
+            return l
+    return l
+
+
+def rule_cicp_layout(ctx):
+    """the `cicp` tag: the reader looks where the writer writes"""
+    rid = "R-CICP-LAYOUT"
+    ctx.rule(rid, "the PQ / HLG signalling through the ICC `cicp` tag agrees between the two directions: (offset) the parser reads the four "
+                  "code points at the byte offset of the tag data at which the synthesiser stores them (after the 8-byte type header); "
+                  "(index) the element the parser compares with the transfer codes is the position EnumColourEncoding::cicp() puts the "
+                  "transfer characteristic at; (codes) the values the parser maps to PQ / HLG are the codes TransferFunction::cicp() "
+                  "returns for PQ / HLG.  Without agreement the profile synthesised for a PQ or HLG encoding does not parse back to it")
+    col = ctx.prog.crate("jxl_color")
+    img = ctx.prog.crate("jxl_image")
+    w, r = col.fn(SYNTH), col.fn(DETECT)
+    ec, tc = img.fn(ENC_CICP), img.fn(TF_CICP)
+    for nm, x in ((SYNTH, w), (DETECT, r), (ENC_CICP, ec), (TF_CICP, tc)):
+        if x is None:
+            ctx.anchor_missing(rid, nm)
+            return
+        ctx.seen(x)
+    # ---- writer: the buffer appended under the tag name b"cicp"; payload = the range of it filled from cicp()
+    wd = Defs(w)
+    buf = None
+    for b, t in w.calls():
+        c = callee(t)
+        if not c or not c["fn"].endswith("append_tag_with_data") or len(t[2]) < 4:
+            continue
+        nl = op_local(t[2][2])
+        k = None
+        for _ in range(4):
+            d = wd.single(nl) if nl is not None else None
+            if not d or d[2] != "assign" or d[3][2][0] != "use":
+                break
+            k = op_const(d[3][2][1])
+            if k is not None:
+                break
+            p = op_place(d[3][2][1])
+            nl = p[0] if p is not None else None
+        if k is not None and "cicp" in str(k.get("s", "")):
+            buf = root_of(w, wd, op_local(t[2][3]))
+    if buf is None:
+        ctx.anchor_missing(rid, "the append_tag_with_data(.., *b\"cicp\", ..) call of the synthesiser")
+        return
+    w_off = None
+    for b, t in w.calls():
+        c = callee(t)
+        if not c or not c["fn"].split("::")[-1] in ("index_mut", "index", "get_mut") or len(t[2]) != 2:
+            continue
+        if root_of(w, wd, op_local(t[2][0])) != buf:
+            continue
+        st = range_start(w, wd, op_local(t[2][1]))
+        # what is copied into that sub-slice: a constant signature, or the code points
+        dest = t[3][0] if t[3] else None
+        for b2, t2 in w.calls():
+            c2 = callee(t2)
+            if c2 and c2["fn"].endswith("copy_from_slice") and t2[2] and root_of(w, wd, op_local(t2[2][0])) == dest:
+                src = root_of(w, wd, op_local(t2[2][1]))
+                sd = wd.single(src) if src is not None else None
+                is_const = bool(sd and sd[2] == "assign" and sd[3][2][0] == "use" and op_const(sd[3][2][1]) is not None)
+                if not is_const:
+                    w_off = st
+    # ---- reader: the Option<[u8; 4]> whose element is compared with the transfer codes
+    rd = Defs(r)
+    cmp_sites = []
+    for b in range(len(r.blocks)):
+        t = r.term(b)
+        if t[0] != "switch" or r.is_cleanup(b):
+            continue
+        p = op_place(t[1])
+        if p is None or len(p) < 3 or not (isinstance(p[-1], list) and p[-1][0] == "[c]"):
+            continue
+        if "[u8; 4]" not in r.local_ty(p[0]):
+            continue
+        for v, tgt in t[2]:
+            cmp_sites.append((p[0], p[-1][1], int(v), tgt))
+    if not cmp_sites:
+        ctx.bad(rid, "reader-codes-missing", "detect_profile_info no longer compares an element of the cicp tag with transfer codes: PQ / HLG "
+                "profiles are not recognised", fn=r)
+        return
+    cl = cmp_sites[0][0]
+    r_off = None
+    for d in rd.of(cl):
+        if d[2] != "assign" or d[3][2][0] != "use":
+            continue
+        l = op_local(d[3][2][1])
+        seen = set()
+        while l is not None and l not in seen:
+            seen.add(l)
+            dd = rd.single(l)
+            if not dd:
+                break
+            if dd[2] == "call":
+                t = dd[3]
+                c = callee(t)
+                nm = c["fn"].split("::")[-1] if c else ""
+                if nm in ("get", "index", "get_unchecked") and len(t[2]) == 2:
+                    r_off = range_start(r, rd, op_local(t[2][1]))
+                    break
+                l = op_local(t[2][0]) if t[2] else None
+            elif dd[2] == "assign":
+                rv = dd[3][2]
+                p = op_place(rv[1]) if rv[0] == "use" else (rv[2] if rv[0] == "ref" else (op_place(rv[2]) if rv[0] == "cast" else None))
+                l = p[0] if p is not None else None
+            else:
+                break
+    if w_off is None or r_off is None:
+        ctx.bad(rid, "offset-not-evaluable", "cannot determine where the cicp code points are written (%s) / read (%s)" % (w_off, r_off), fn=r)
+    elif w_off == r_off:
+        ctx.ok(rid, "offset", "code points written and read at byte %d of the tag data" % w_off, nontrivial=True, fn=r)
+    else:
+        ctx.bad(rid, "offset-differs", "the synthesiser stores the cicp code points at byte %d of the tag data, the parser reads them at byte %d "
+                "(the type signature / reserved bytes): a PQ or HLG profile is never recognised" % (w_off, r_off), fn=r)
+    # ---- index of the transfer characteristic
+    ed = Defs(ec)
+    t_idx = None
+    for blk in ec.blocks:
+        for st in blk[0]:
+            if st[0] == "=" and st[2][0] == "agg" and st[2][1][0] == "array" and len(st[2][2]) == 4:
+                for i, o in enumerate(st[2][2]):
+                    l = op_local(o)
+                    seen = set()
+                    while l is not None and l not in seen:
+                        seen.add(l)
+                        d = ed.single(l)
+                        if d and d[2] == "call" and callee(d[3]) and callee(d[3])["fn"] == TF_CICP:
+                            t_idx = i
+                            break
+                        if d and d[2] == "assign" and d[3][2][0] == "use":
+                            p = op_place(d[3][2][1])
+                            l = p[0] if p is not None else None
+                            # a field of a tuple built in this function: continue with the operand stored in that field
+                            if p is not None and len(p) > 1 and isinstance(p[1], list) and p[1][0] == ".":
+                                dt = ed.single(p[0])
+                                if dt and dt[2] == "assign" and dt[3][2][0] == "agg" and dt[3][2][1][0] == "tuple" and p[1][1] < len(dt[3][2][2]):
+                                    l = op_local(dt[3][2][2][p[1][1]])
+                        else:
+                            break
+    idxs = {i for _, i, _, _ in cmp_sites}
+    if t_idx is None:
+        ctx.bad(rid, "index-not-evaluable", "cannot find the position of the transfer characteristic in EnumColourEncoding::cicp()", fn=ec)
+    elif idxs == {t_idx}:
+        ctx.ok(rid, "index", "transfer characteristic at element %d in both directions" % t_idx, nontrivial=True, fn=r)
+    else:
+        ctx.bad(rid, "index-differs", "EnumColourEncoding::cicp() puts the transfer characteristic at element %d, the parser tests element(s) %s"
+                % (t_idx, sorted(idxs)), fn=r)
+    # ---- codes
+    adt = img.adts.get("jxl_image::color::TransferFunction")
+    codes = {}
+    if adt:
+        td = Defs(tc)
+        for b in range(len(tc.blocks)):
+            t = tc.term(b)
+            if t[0] != "switch" or tc.is_cleanup(b):
+                continue
+            for v, tgt in t[2]:
+                seen, work = set(), [tgt]
+                while work and len(seen) < 6:
+                    x = work.pop()
+                    if x in seen:
+                        continue
+                    seen.add(x)
+                    got = [op_const_int(st[2][2][0]) for st in tc.stmts(x) if st[0] == "=" and st[2][0] == "agg" and st[2][1][0] == "adt"
+                           and st[2][1][1] == "core::option::Option" and st[2][1][2] == "Some" and st[2][2]]
+                    if got and got[0] is not None:
+                        name = next((vv["name"] for vv in adt["variants"] if vv["discr"] is not None and int(vv["discr"]) == int(v)), None)
+                        if name:
+                            codes[name] = got[0]
+                        break
+                    if tc.term(x)[0] == "goto":
+                        work.extend(tc.succs(x))
+    mapped = {}
+    for _, _, v, tgt in cmp_sites:
+        seen, work = set(), [tgt]
+        while work and len(seen) < 6:
+            x = work.pop()
+            if x in seen:
+                continue
+            seen.add(x)
+            names = [st[2][1][2] for st in r.stmts(x) if st[0] == "=" and st[2][0] == "agg" and st[2][1][0] == "adt" and st[2][1][1].endswith("KnownIccTrc")]
+            if names:
+                mapped[v] = names[0]
+                break
+            if r.term(x)[0] == "goto":
+                work.extend(r.succs(x))
+    wrong = {v: n for v, n in mapped.items() if codes.get(n) != v}
+    if not mapped or not codes:
+        ctx.bad(rid, "codes-not-evaluable", "cannot read the code -> curve mapping of the parser (%s) or TransferFunction::cicp() (%s)" % (mapped, codes), fn=r)
+    elif wrong or not {"Pq", "Hlg"} <= set(mapped.values()):
+        ctx.bad(rid, "codes-differ", "the parser maps cicp transfer codes %s, TransferFunction::cicp() gives %s" % (mapped, {k: codes.get(k) for k in ("Pq", "Hlg")}), fn=r)
+    else:
+        ctx.ok(rid, "codes", "parser: %s; TransferFunction::cicp(): Pq=%s Hlg=%s" % (mapped, codes.get("Pq"), codes.get("Hlg")), nontrivial=True, fn=r)
+
+
 def main(pid, tier, repo=None):
     ctx = Ctx(pid, tier, configs=("workspace",), repo=repo)
     specconst.run(ctx, pid, floor=20)
     from . import enummap
     enummap.run(ctx, pid)
+    rule_cicp_layout(ctx)
     ctx.not_decided("numerical tolerance statements over real-valued functions: that the synthesised profile parses back to an equivalent "
                     "encoding for custom chromaticities and arbitrary gamma, that each transfer function's two directions compose to the "
                     "identity and are monotone, no-op detection of equivalent encodings")
